@@ -118,6 +118,15 @@ one_write(uint32_t addr, uint32_t n, const unsigned char *words, const char *pat
         buf = bigbuf;
     }
     memcpy(buf, words, 2 * bn);
+    /* touched marks are sticky: on every other write they are taken back first, or a register marked by an earlier
+     * write of the same unit would hide a mark this write fails to set (round 29) */
+    if (nwrites & 1) {
+        for (int i = 0; i < d->nregs; i++) {
+            register_untouch(&inst.t, (RegisterHandle)i);
+            inst.touched[i] = 0;
+        }
+        VH_COUNT("write after all touched marks were taken back");
+    }
     const unsigned wcalls_before = inst.cb_writes;
     RegisterAccess a = register_block_write(&inst.t, addr, n, buf);
     nwrites++;
